@@ -97,6 +97,19 @@ function transitions(data, names, reduced) {
       out.push({ label: 'duplicate key', ops: [{ path: ['list', 1], value: clone(L[0]) }] })
       out.push({ label: 'swap by two item writes', ops: [{ path: ['list', 0], value: clone(L[1]) }, { path: ['list', 1], value: clone(L[0]) }] })
     }
+    // every list operation together with a change of each other field in the same update (the list diff and the bindings
+    // inside the items that read data outside the item are served by one pass)
+    if (!reduced) {
+      const listOps = out.filter((t) => t.ops.some((op) => op.path[0] === 'list') && t.ops.length <= 2 && !t.label.startsWith('set '))
+      for (const n of used) {
+        if (n === 'list') continue
+        const v = ALT[n].find((x) => key(x) !== key(data[n]))
+        for (const t of listOps) {
+          out.push({ label: `${t.label} + set ${n}`, ops: [...t.ops, { path: [n], value: v }] })
+          out.push({ label: `set ${n} + ${t.label}`, ops: [{ path: [n], value: v }, ...t.ops] })
+        }
+      }
+    }
   }
   return out
 }
